@@ -251,3 +251,10 @@ def toks_axioms():
                                         (nsetV(t) == 0) == (L_len(_LV, t) == 0),
                                         z3.Implies(rs, nsetV(t) == L_len(_LV, t))), patterns=[t]),
             z3.ForAll([s_], dupfree(_LV, toks(z3.BoolVal(True), s_)), patterns=[toks(z3.BoolVal(True), s_)])]
+
+
+def toks_bounded():
+    """domain bound: no string has more than 2^31 tokens"""
+    rs = z3.Bool('rs!tb')
+    s_ = z3.Const('s!tb', ValSort)
+    return z3.ForAll([rs, s_], L_len(_LV, toks(rs, s_)) <= MAXTOK, patterns=[toks(rs, s_)])
